@@ -329,8 +329,8 @@ def title_sites(c, ex):
     for f in c.confuse.funcs.values():
         if f.name in c.unknown_funcs:
             continue          # a helper is explored as part of the function it was split off
-        if not any(True for _ in c.deep_calls(f, 'strcasecmp')):
-            continue
+        if not any(True for _ in c.deep_calls(f, 'strcasecmp')) and not any('@strcasecmp' in (i.text or "") for g in c.deep_funcs(f) for i in g.instrs()):
+            continue          # (the routine may also be picked once and called through a pointer)
         for p in ex.explore(f):
             for e in p.events:
                 if e.kind == 'call' and e.name == 'strcasecmp':
